@@ -299,3 +299,139 @@ pub(crate) mod k {
         }
     }
 }
+
+#[cfg(all(svgbob_verif, test))]
+pub(crate) mod b {
+    use super::*;
+    use crate::fragment::PolygonTag;
+    use sauron::Node;
+
+    fn num(node: &Node<()>, name: &'static str) -> Option<f32> {
+        node.first_value(&name).and_then(|v| v.as_f32())
+    }
+    fn classes(node: &Node<()>) -> Vec<String> {
+        let mut out: Vec<String> = vec![];
+        if let Some(vals) = node.attribute_value(&"class") {
+            for v in vals {
+                if let Some(val) = v.get_simple() {
+                    out.extend(val.to_string().split_whitespace().map(|s| s.to_string()));
+                }
+            }
+        }
+        out.sort();
+        out
+    }
+    fn want_classes(list: &[&str]) -> Vec<String> {
+        let mut v: Vec<String> = list.iter().map(|s| s.to_string()).collect();
+        v.sort();
+        v
+    }
+
+    /// renderers: the numeric attributes are exactly the (already scaled) fields, the classes follow the flags
+    #[test]
+    fn bounded_renderers() {
+        let vals = [0.0f32, 0.25, 8.0, 130.5, 1e6];
+        let mut n = 0u64;
+        for &x0 in &vals {
+            for &y0 in &vals {
+                for &x1 in &vals {
+                    for flag in [false, true] {
+                        let (y1, r) = (x0 + 3.0, x1 + 0.5);
+                        let fail = |what: &str| {
+                            println!("BOUNDED-WITNESS renderer {} for values ({},{},{},{},{},{})", what, x0, y0, x1, y1, r, flag);
+                            panic!("renderer attributes");
+                        };
+                        // line
+                        let l = Line::new_noswap(Point::new(x0, y0), Point::new(x1, y1), flag);
+                        let node: Node<()> = l.into();
+                        if node.tag() != Some(&"line") || num(&node, "x1") != Some(x0) || num(&node, "y1") != Some(y0) || num(&node, "x2") != Some(x1)
+                            || num(&node, "y2") != Some(y1) || classes(&node) != want_classes(&[if flag { "broken" } else { "solid" }]) {
+                            fail("line");
+                        }
+                        // marker line: the line plus start/end marker classes
+                        let ml = MarkerLine::new(Point::new(x0, y0), Point::new(x1, y1), flag, if flag { Some(Marker::Circle) } else { None }, Some(Marker::Arrow));
+                        let node: Node<()> = ml.into();
+                        let mut want = vec![if flag { "broken" } else { "solid" }, "end_marked_arrow"];
+                        if flag {
+                            want.push("start_marked_circle");
+                        }
+                        if node.tag() != Some(&"line") || num(&node, "x1") != Some(x0) || num(&node, "y2") != Some(y1) || classes(&node) != want_classes(&want) {
+                            fail("marker line");
+                        }
+                        // circle
+                        let c = Circle::new(Point::new(x0, y0), r, flag);
+                        let node: Node<()> = c.into();
+                        if node.tag() != Some(&"circle") || num(&node, "cx") != Some(x0) || num(&node, "cy") != Some(y0) || num(&node, "r") != Some(r)
+                            || classes(&node) != want_classes(&[if flag { "filled" } else { "nofill" }]) {
+                            fail("circle");
+                        }
+                        // rect (start <= end as the constructor leaves it)
+                        let rc = Rect::rounded_new(Point::new(x0, y0), Point::new(x0 + x1, y0 + y1), flag, r, !flag);
+                        let node: Node<()> = rc.clone().into();
+                        if node.tag() != Some(&"rect") || num(&node, "x") != Some(rc.start.x) || num(&node, "y") != Some(rc.start.y)
+                            || num(&node, "width") != Some(rc.end.x - rc.start.x) || num(&node, "height") != Some(rc.end.y - rc.start.y) || num(&node, "rx") != Some(r)
+                            || classes(&node) != want_classes(&[if !flag { "broken" } else { "solid" }, if flag { "filled" } else { "nofill" }]) {
+                            fail("rounded rect");
+                        }
+                        let sharp: Node<()> = Rect::new(Point::new(x0, y0), Point::new(x0 + x1, y0 + y1), false, false).into();
+                        if num(&sharp, "rx") != Some(0.0) {
+                            fail("sharp rect rx");
+                        }
+                        // arc: M sx,sy A r,r 0,major,sweep ex,ey
+                        let a = Arc::new_with_sweep(Point::new(x0, y0), Point::new(x1, y1), r, flag);
+                        let want_d = format!("M {},{} A {},{} 0,{},{} {},{}", a.start.x, a.start.y, r, r, a.major_flag as u8, a.sweep_flag as u8, a.end.x, a.end.y);
+                        let node: Node<()> = a.into();
+                        if node.tag() != Some(&"path") || node.first_value(&"d").map(|v| v.to_string()) != Some(want_d) || classes(&node) != want_classes(&["nofill"]) {
+                            fail("arc");
+                        }
+                        // polygon
+                        let p = Polygon::new(vec![Point::new(x0, y0), Point::new(x1, y1), Point::new(r, x0)], flag, vec![PolygonTag::ArrowRight]);
+                        let node: Node<()> = p.into();
+                        let want_pts = format!("{},{} {},{} {},{}", x0, y0, x1, y1, r, x0);
+                        if node.tag() != Some(&"polygon") || node.first_value(&"points").map(|v| v.to_string()) != Some(want_pts)
+                            || classes(&node) != want_classes(&[if flag { "filled" } else { "nofill" }]) {
+                            fail("polygon");
+                        }
+                        n += 1;
+                    }
+                }
+            }
+        }
+        println!("BOUNDED-CASES {}", n);
+    }
+
+    /// C02 text sink: a text element has x, y and exactly one child, the escaped text
+    #[test]
+    fn bounded_text_node() {
+        let alphabet = ['<', '&', '>', '"', '\'', 'a', 'é', '一', '\0', '\u{1}', ' '];
+        let mut n = 0u64;
+        for w in crate::buffer::cell_buffer::__verif::b::words(&alphabet, 3) {
+            if w.is_empty() {
+                continue;
+            }
+            let t = Text::new(Point::new(2.0, 12.0), w.clone());
+            let node: Node<()> = t.into();
+            let want: String = w.chars().map(|c| match c {
+                '<' => "&lt;".to_string(),
+                '>' => "&gt;".to_string(),
+                '&' => "&amp;".to_string(),
+                '\'' => "&#39;".to_string(),
+                '"' => "&quot;".to_string(),
+                c if !crate::__verif::h::xml_char(c) => String::new(),
+                c => c.to_string(),
+            }).collect();
+            let ch = node.children();
+            let ok = node.tag() == Some(&"text") && num(&node, "x") == Some(2.0) && num(&node, "y") == Some(12.0)
+                && node.attributes().map(|a| a.len()) == Some(2) && ch.len() == 1 && ch[0].as_text() == Some(want.as_str());
+            // the same through CellText
+            let ct: Node<()> = CellText::new(Cell::new(0, 0), w.clone()).into();
+            let ok2 = ct.children().len() == 1 && ct.children()[0].as_text() == Some(want.as_str());
+            if !ok || !ok2 {
+                println!("BOUNDED-WITNESS text node for {:?}: {:?}", w, ch.first().and_then(|c| c.as_text()));
+                panic!("text node = escaped text");
+            }
+            n += 1;
+        }
+        println!("BOUNDED-CASES {}", n);
+    }
+}
